@@ -68,8 +68,10 @@ type Tunnel struct {
 	sock   knxnet.Socket
 	config TunnelConfig
 
-	// Connection information
+	// Connection information; channel and control are rewritten by the connection server on every
+	// reconnect while senders, the heartbeat and Close read them, hence connMu.
 	layer   knxnet.TunnelLayer
+	connMu  sync.RWMutex
 	channel uint8
 	control knxnet.HostInfo
 
@@ -85,6 +87,14 @@ type Tunnel struct {
 	done chan struct{}
 	once sync.Once
 	wait sync.WaitGroup
+}
+
+// connInfo returns the channel and the control endpoint of the current connection.
+func (conn *Tunnel) connInfo() (uint8, knxnet.HostInfo) {
+	conn.connMu.RLock()
+	defer conn.connMu.RUnlock()
+
+	return conn.channel, conn.control
 }
 
 func (conn *Tunnel) hostInfo() (knxnet.HostInfo, error) {
@@ -113,12 +123,14 @@ func (conn *Tunnel) requestConn() (err error) {
 		return err
 	}
 
+	conn.connMu.Lock()
 	conn.control = hostInfo
+	conn.connMu.Unlock()
 
 	req := &knxnet.ConnReq{
 		Layer:   conn.layer,
-		Control: conn.control,
-		Tunnel:  conn.control,
+		Control: hostInfo,
+		Tunnel:  hostInfo,
 	}
 
 	// Send the initial request.
@@ -159,7 +171,9 @@ func (conn *Tunnel) requestConn() (err error) {
 				switch res.Status {
 				// Conection has been established.
 				case knxnet.NoError:
+					conn.connMu.Lock()
 					conn.channel = res.Channel
+					conn.connMu.Unlock()
 
 					conn.seqMu.Lock()
 					conn.seqNumber = 0
@@ -185,7 +199,8 @@ func (conn *Tunnel) requestConn() (err error) {
 func (conn *Tunnel) requestConnState(
 	heartbeat <-chan knxnet.ErrCode,
 ) (knxnet.ErrCode, error) {
-	req := &knxnet.ConnStateReq{Channel: conn.channel, Status: 0, Control: conn.control}
+	channel, control := conn.connInfo()
+	req := &knxnet.ConnStateReq{Channel: channel, Status: 0, Control: control}
 
 	// Send first connection state request
 	err := conn.sock.Send(req)
@@ -226,10 +241,12 @@ func (conn *Tunnel) requestConnState(
 
 // requestDisc sends a disconnect request to the gateway.
 func (conn *Tunnel) requestDisc() error {
+	channel, control := conn.connInfo()
+
 	return conn.sock.Send(&knxnet.DiscReq{
-		Channel: conn.channel,
+		Channel: channel,
 		Status:  0,
-		Control: conn.control,
+		Control: control,
 	})
 }
 
@@ -246,8 +263,10 @@ func (conn *Tunnel) requestTunnel(data cemi.Message) error {
 		seqNumber = conn.seqNumber
 	}
 
+	channel, _ := conn.connInfo()
+
 	req := &knxnet.TunnelReq{
-		Channel:   conn.channel,
+		Channel:   channel,
 		SeqNumber: seqNumber,
 		Payload:   data,
 	}
